@@ -25,6 +25,16 @@ def _h(x):
     return 0.25 * float(np.sum(np.abs(x)))
 
 
+# internal variable scaling (the model works in scaled coordinates, the regulariser is a function of the user's):
+# user x = shift + scale * model x.  Chosen so that h at the scaled and at the user's point differ in size and in sign pattern.
+SCALING = (np.array([10.0, -3.0]), np.array([10.0, 0.5]))
+
+
+def _hu(x, scaled):
+    x = np.asarray(x, dtype=float)
+    return _h(SCALING[0] + x * SCALING[1]) if scaled else _h(x)
+
+
 def rank(v):
     """Ordering used by the oracle: every non-finite value (NaN, inf) is equally bad - the property only asks that
     finite values are preferred over NaN."""
@@ -38,8 +48,9 @@ def better(a, b):
 
 
 class Shadow(object):
-    def __init__(self, x0, r0, reg):
+    def __init__(self, x0, r0, reg, scaled=False):
         self.reg = reg
+        self.scaled = scaled
         self.xbase = np.array(x0, dtype=float)
         self.pts = [[np.array(x0, dtype=float), [np.array(r0, dtype=float)], 1]]
         self.kopt = 0
@@ -52,7 +63,7 @@ class Shadow(object):
 
     def objof(self, x, r):
         v = float(np.dot(r, r))
-        return v + _h(x) if self.reg else v
+        return v + _hu(x, self.scaled) if self.reg else v
 
     def obj(self, k):
         return self.objof(self.pts[k][0], self.mean(k))
@@ -102,8 +113,10 @@ def init(params):
     x0 = np.array([1.0, 0.5])
     r0 = np.array([1.0, -0.5])
     reg = params.get("reg", False)
-    model = Model(params["npt"], x0, r0, -BIG * np.ones(n), BIG * np.ones(n), [], 1, h=_h if reg else None, do_logging=False)
-    st = {"m": model, "s": Shadow(x0, r0, reg)}
+    scaled = bool(params.get("scaled"))
+    model = Model(params["npt"], x0, r0, -BIG * np.ones(n), BIG * np.ones(n), [], 1, h=_h if reg else None, do_logging=False,
+                  scaling_changes=SCALING if scaled else None)
+    st = {"m": model, "s": Shadow(x0, r0, reg, scaled)}
     for op in params.get("prelude", []):
         apply(st, op, params, check=False)
     return st
@@ -359,7 +372,7 @@ def check_state(st, params):
         mean = s.mean(k)
         if not _eq(m.fval_v[k, :], mean, 1e-13):
             v.append(("mean_of_samples", "point %d stores residual %s, mean of its samples is %s" % (k, m.fval_v[k, :].tolist(), mean.tolist())))
-        want = float(np.dot(m.fval_v[k, :], m.fval_v[k, :])) + (_h(xa) if s.reg else 0.0)
+        want = float(np.dot(m.fval_v[k, :], m.fval_v[k, :])) + (_hu(xa, s.scaled) if s.reg else 0.0)
         if not _eq(m.objval[k], want):
             v.append(("objval", "point %d objective %r != sum(stored residual^2)+h = %r" % (k, float(m.objval[k]), want)))
     if v:
@@ -606,9 +619,11 @@ def run(report, tier, seed):
     runs = []
     if tier == "quick":
         runs = [({"npt": 3, "reg": False, "max_pts": 4}, 3), ({"npt": 3, "reg": True, "max_pts": 4, "npts_alpha": 2}, 3),
+                ({"npt": 3, "reg": True, "scaled": True, "max_pts": 3, "npts_alpha": 2, "letters": ["better", "tie", "worse"]}, 3),
                 ({"npt": 4, "reg": False, "max_pts": 4, "npts_alpha": 2, "letters": ["better", "tie", "nan", "worse"]}, 3)]
     else:
         runs = [({"npt": 3, "reg": False, "max_pts": 4}, 3), ({"npt": 3, "reg": True, "max_pts": 4}, 3),
+                ({"npt": 3, "reg": True, "scaled": True, "max_pts": 4, "npts_alpha": 2}, 3),
                 ({"npt": 4, "reg": False, "max_pts": 5}, 3),
                 ({"npt": 3, "reg": False, "max_pts": 4, "npts_alpha": 2, "letters": ["better", "tie", "nan", "worse"]}, 4),
                 ({"npt": 3, "reg": True, "max_pts": 4, "npts_alpha": 2, "letters": ["better", "negtie", "nan", "inf"]}, 4)]
